@@ -15,8 +15,10 @@ RULE = (
     "start/duration or duration/end; bounded n in 1..40 or unbounded; anchor "
     "in any representation/offset (24:00 with exact intervals); interval "
     "exact of any size, nominal (months/years alone or mixed with exact "
-    "units) or zero; built through the constructor or through "
-    "TimeRecurrenceParser from text rendered by our own encoder. Oracle: the "
+    "units) or zero; built through the constructor or through a "
+    "long-lived TimeRecurrenceParser from text rendered by our own encoder "
+    "(a third of the parsed cases first push the same text through the same "
+    "parser under another calendar mode). Oracle: the "
     "series stepped point by point on vlib.refcal (C05 semantics): order, "
     "instants, exactly n points for bounded series incl. the given anchor, "
     "strict monotonicity, consecutive points differ by the interval (library "
@@ -60,6 +62,15 @@ def check_case(case):
     fail = None
     known = None
     nontrivial = False
+    if case.get("premode"):
+        # the same text went through the same long-lived parser under another
+        # calendar mode first (its result is not judged here)
+        with M.use_mode(case["premode"]):
+            try:
+                RC.build(spec)
+            except Exception:       # noqa: BLE001 - e.g. not a date there
+                pass
+        classes.append("reparsed_after_mode_switch")
     with M.use_mode(mode):
         try:
             r = RC.build(spec)
@@ -149,7 +160,11 @@ def check_case(case):
 @st.composite
 def st_case(draw):
     mode, spec = draw(RC.st_spec())
-    return {"mode": mode, "spec": spec}
+    case = {"mode": mode, "spec": spec}
+    if spec["via"] == "parse" and draw(st.sampled_from([False, False, True])):
+        case["premode"] = draw(st.sampled_from(
+            [m for m in R.CANON_MODES if m != R.canon(mode)]))
+    return case
 
 
 def run_shard(ctx):
